@@ -70,6 +70,7 @@ class McServer:
         # keys whose stores the server refuses although they are well-formed: key -> "too-large" (the server's own item
         # size limit is lower than the client thinks), "oom", "not-stored"
         self.refuse = {}
+        self.dialect = set()        # names of reply dialects in force (see _get, _cmd_version, _cmd_stats)
         self.refuse_cas = True
         self.store = {}
         self.cas_counter = 0
@@ -309,7 +310,16 @@ class McConn:
             return b"CLIENT_ERROR bad command line format\r\n"
         s.log.append({"verb": verb, "keys": list(args), "exptime": exptime})
         out = []
-        for k in args:
+        # dialects: what another version of the server, or a proxy in front of it, may legally send (s.dialect is a set of names)
+        dia = getattr(s, "dialect", None) or ()
+        order = list(args)
+        if "reverse" in dia:
+            order = order[::-1]                          # items in another order than the keys were asked for
+        if "dedupe" in dia:
+            order = list(dict.fromkeys(order))           # a key asked for twice is answered once
+        if "cas-always" in dia:
+            with_cas = True                              # the cas field is sent although it was not asked for
+        for k in order:
             it = s._live(k)
             if it is None:
                 continue
@@ -321,7 +331,13 @@ class McConn:
             head = b"VALUE " + k + b" %d %d" % (it.flags, len(it.value))
             if with_cas:
                 head += b" %d" % it.cas
+            if "value-trailing-blank" in dia:
+                head += b" "
             out.append(head + b"\r\n" + it.value + b"\r\n")
+        if "repeat-first" in dia and out:
+            out.append(out[0])                           # the first item once more
+        if "unasked" in dia:
+            out.append(b"VALUE unasked-key 0 2\r\nuu\r\n")   # an item nobody asked for
         out.append(b"END\r\n")
         return b"".join(out)
 
@@ -448,6 +464,11 @@ class McConn:
             self._err("bad version line", line)
             return b"ERROR\r\n"
         self.s.log.append({"verb": b"version"})
+        dia = getattr(self.s, "dialect", None) or ()
+        if "version-empty" in dia:
+            return b"VERSION \r\n"
+        if "version-long" in dia:
+            return b"VERSION 1.6.21 (proxy 0.9; build " + b"x" * 5000 + b")\r\n"
         return b"VERSION " + self.s.version + b"\r\n"
 
     def _cmd_verbosity(self, toks, line):
@@ -468,7 +489,11 @@ class McConn:
         args = toks[1:]
         s.log.append({"verb": b"stats", "args": list(args)})
         if not args:
-            return b"".join(b"STAT " + k + b" " + v + b"\r\n" for k, v in s.stats_lines) + b"END\r\n"
+            lines = list(s.stats_lines)
+            if "stats-odd" in (getattr(s, "dialect", None) or ()):
+                lines += [(b"rusage_user", b"-0.5"), (b"evictions", b"18446744073709551616"), (b"version", b""), (b"libevent", b"2.1.12 stable build"),
+                          (b"threads", b"04"), (b"accepting_conns", b"yes"), (b"slab_reassign_rescues", b"1e3"), (b"pid", b" 77")]
+            return b"".join(b"STAT " + k + b" " + v + b"\r\n" for k, v in lines) + b"END\r\n"
         if args[0] == b"settings":
             return (b"STAT maxbytes 67108864\r\nSTAT inter NULL\r\nSTAT growth_factor 1.25\r\n"
                     b"STAT stat_key_prefix :\r\nSTAT umask 700\r\nSTAT auth_enabled_sasl no\r\n"
